@@ -2,9 +2,9 @@
 (***************************************************************************)
 (* C02: the cases for one program.  EncProg (written by the check from a   *)
 (* program IDL.tla emitted) defines Prog.  For every struct, union,        *)
-(* exception and every args / result struct: every assignment of           *)
-(* {not set, sample value 1, sample value 2} to its fields (unions: every  *)
-(* single member, plus the two illegal shapes none / two), the wire tree   *)
+(* exception and every args / result struct: every assignment of {not set, *)
+(* sample 1, sample 2, the default, the zero value} to its fields (unions: *)
+(* every single member, plus the illegal shapes none / two), the wire tree *)
 (* Encode demands, and for each such tree the perturbed encodings a reader *)
 (* must cope with (fields reversed, an unknown field in front or behind, a *)
 (* field missing) with what Decode says the reader must produce.  (A field *)
@@ -31,7 +31,7 @@ Val(t, k, fuel) == LET u == Resolve(Prog, t) kd == Kind(Prog, t) IN
          IF k = 2 THEN [k |-> "list", items |-> <<>>]
          ELSE LET a == Val(u.v, 1, fuel) b == Val(u.v, 2, fuel) IN
               IF a = Bottom \/ b = Bottom THEN Bottom
-              ELSE [k |-> "list", items |-> IF kd = "set" /\ Kind(Prog, u.v) # "struct" THEN Dedup(a, b) ELSE <<a, b>>]
+              ELSE [k |-> "list", items |-> IF kd = "set" THEN Dedup(a, b) ELSE <<a, b>>]
     [] kd = "map" ->
          IF k = 2 THEN [k |-> "map", pairs |-> <<>>]
          ELSE LET k1 == Val(u.key, 1, fuel) k2 == Val(u.key, 2, fuel) v1 == Val(u.v, 1, fuel) v2 == Val(u.v, 2, fuel) IN
@@ -43,7 +43,7 @@ StructVal(n, k, fuel) ==
   ELSE LET s == StructNamed(Prog, n)
            \* (nested union values stay clear of the member's default: that corner is explored, and flagged, at the top level only)
            raw(i) == LET a == Val(s.fields[i].t, 1 + ((k + i) % 2), fuel - 1) b == Val(s.fields[i].t, 1 + ((k + i + 1) % 2), fuel - 1) IN
-                     IF s.kind = "union" /\ a = s.fields[i].dflt THEN b ELSE a
+                     IF s.kind = "union" /\ a = DfltOf(Prog, s.fields[i]) THEN b ELSE a
            isset(i) == IF s.kind = "union" THEN i = 1 + ((k - 1) % Len(s.fields))
                        ELSE s.fields[i].req # "optional" \/ (k + i) % 2 = 0
            v(i) == IF ~isset(i) THEN Unset ELSE raw(i)
@@ -55,7 +55,9 @@ StructVal(n, k, fuel) ==
 \* ---- top-level assignments ----
 \* (the declared default itself is a third sample: "set to what the default is anyway")
 FieldChoices(f) == ((IF Kind(Prog, f.t) = "struct" /\ f.req # "optional" THEN {} ELSE {Unset})
-               \cup {Val(f.t, 1, Fuel), Val(f.t, 2, Fuel)} \cup (IF f.dflt # NoDflt THEN {f.dflt} ELSE {})) \ {Bottom}
+               \cup {Val(f.t, 1, Fuel), Val(f.t, 2, Fuel)} \cup (IF f.dflt # NoDflt THEN {DfltOf(Prog, f)} ELSE {})
+               \* and so is the zero value of a scalar: "set to 0 / false / the empty string" is not "not set"
+               \cup (IF Kind(Prog, f.t) \in {"bool", "byte", "i16", "i32", "i64", "double", "string", "enum"} THEN {Zero(Prog, f.t)} ELSE {})) \ {Bottom}
 RECURSIVE Prod(_)
 Prod(fs) == IF fs = <<>> THEN {<<>>}
             ELSE {<<[id |-> Head(fs).id, v |-> c]>> \o r : c \in FieldChoices(Head(fs)), r \in Prod(Tail(fs))}
@@ -68,7 +70,7 @@ AsValue(s, fs) == [k |-> "struct", name |-> s.name, fields |-> fs]
 \* illegal union shapes: nothing set, two members set
 BadUnion(s) == {AsValue(s, [i \in Idx(s.fields) |-> [id |-> s.fields[i].id, v |-> Unset]])} \cup
                (IF Len(s.fields) < 2 THEN {} ELSE
-                  LET pick(f) == IF Val(f.t, 1, Fuel) = f.dflt THEN Val(f.t, 2, Fuel) ELSE Val(f.t, 1, Fuel)
+                  LET pick(f) == IF Val(f.t, 1, Fuel) = DfltOf(Prog, f) THEN Val(f.t, 2, Fuel) ELSE Val(f.t, 1, Fuel)
                       a == pick(s.fields[1]) b == pick(s.fields[2]) IN
                   IF a = Bottom \/ b = Bottom THEN {} ELSE
                   {AsValue(s, [i \in Idx(s.fields) |-> [id |-> s.fields[i].id, v |-> IF i = 1 THEN a ELSE IF i = 2 THEN b ELSE Unset]])})
@@ -83,7 +85,7 @@ Perturbed(s, w) ==
 \* ---- the cases ----
 \* a union member whose value equals the member's declared default: Go keeps such a member as a plain value and takes
 \* "equal to the default" for "not set", so it cannot tell this legal value from an empty union (flagged for the harness)
-EqDefault(s, fs) == s.kind = "union" /\ \E i \in Idx(fs) : fs[i].v # Unset /\ s.fields[i].dflt # NoDflt /\ fs[i].v = s.fields[i].dflt
+EqDefault(s, fs) == s.kind = "union" /\ \E i \in Idx(fs) : fs[i].v # Unset /\ s.fields[i].dflt # NoDflt /\ fs[i].v = DfltOf(Prog, s.fields[i])
                                          /\ Kind(Prog, s.fields[i].t) \notin {"list", "set", "map", "binary", "struct"}
 WriteCases == UNION {{[op |-> "write", s |-> Top[i].name, kind |-> Top[i].kind, v |-> AsValue(Top[i], fs), wire |-> EncStruct(Prog, Top[i].name, AsValue(Top[i], fs)),
                        eqd |-> EqDefault(Top[i], fs)] :
